@@ -140,8 +140,11 @@ func checkC20(c *Ctx) {
 	for _, g := range guards {
 		if !concurrentStruct(g.OwnerT) {
 			// a record type without its own lock: it is shared if some of its post-construction accesses
-			// are made under a lock (e.g. registry records mutated under the registry's mutex) — then all must be
-			if g.Guard == "" {
+			// are made under a lock (e.g. registry records mutated under the registry's mutex) — then all must be.
+			// The lock must be one of a struct that HOLDS such records (a member, map or slice of them): an object a
+			// caller hands in (a request it built) is not made shared by being touched while some unrelated lock
+			// happens to be held.
+			if g.Guard == "" || !holdsRecordsOf(lockOwnerNamed(c, g.Guard), g.OwnerT) {
 				continue
 			}
 		}
@@ -644,4 +647,61 @@ func c20WriterJoined(c *Ctx) {
 	if n == 0 {
 		c.R.Hold("R-writer-joined", "no handler hands its ResponseWriter to a goroutine", "", "")
 	}
+}
+
+// holdsRecordsOf: struct type T has a member whose type mentions M (M, *M, []*M, map[K]*M, atomic.Pointer[M], …).
+func holdsRecordsOf(T, M *types.Named) bool {
+	if T == nil || M == nil {
+		return false
+	}
+	st, ok := T.Underlying().(*types.Struct)
+	if !ok {
+		return false
+	}
+	var mentions func(t types.Type, d int) bool
+	mentions = func(t types.Type, d int) bool {
+		if d > 4 {
+			return false
+		}
+		switch x := t.(type) {
+		case *types.Named:
+			if x == M || types.Identical(x, M) {
+				return true
+			}
+			if ta := x.TypeArgs(); ta != nil {
+				for i := 0; i < ta.Len(); i++ {
+					if mentions(ta.At(i), d+1) {
+						return true
+					}
+				}
+			}
+			if _, isStruct := x.Underlying().(*types.Struct); isStruct {
+				return false
+			}
+			return mentions(x.Underlying(), d+1)
+		case *types.Pointer:
+			return mentions(x.Elem(), d+1)
+		case *types.Slice:
+			return mentions(x.Elem(), d+1)
+		case *types.Array:
+			return mentions(x.Elem(), d+1)
+		case *types.Map:
+			return mentions(x.Elem(), d+1) || mentions(x.Key(), d+1)
+		case *types.Chan:
+			return mentions(x.Elem(), d+1)
+		case *types.Struct:
+			for i := 0; i < x.NumFields(); i++ {
+				if mentions(x.Field(i).Type(), d+1) {
+					return true
+				}
+			}
+		}
+		return false
+	}
+	for i := 0; i < st.NumFields(); i++ {
+		if mentions(st.Field(i).Type(), 0) {
+			return true
+		}
+	}
+	return false
 }
